@@ -3,6 +3,7 @@ package accessor
 import (
 	"errors"
 	"fmt"
+	"math"
 	"reflect"
 )
 
@@ -64,6 +65,9 @@ func (sa *StructAccessor) Set(key string, value interface{}) error {
 		case reflect.Int, reflect.Int8, reflect.Int16, reflect.Int32, reflect.Int64:
 			newInt = newVal.Int()
 		case reflect.Uint, reflect.Uint8, reflect.Uint16, reflect.Uint32, reflect.Uint64:
+			if newVal.Uint() > math.MaxInt64 {
+				return fmt.Errorf("setting field %s (%s) to %d would overflow", key, field.Kind().String(), newVal.Uint())
+			}
 			newInt = int64(newVal.Uint())
 		default:
 			return fmt.Errorf("tried to set field %s (%s) to a %s value", key, field.Kind().String(), newVal.Kind().String())
@@ -78,6 +82,9 @@ func (sa *StructAccessor) Set(key string, value interface{}) error {
 		var newUint uint64
 		switch newVal.Kind() { // nolint:exhaustive
 		case reflect.Int, reflect.Int8, reflect.Int16, reflect.Int32, reflect.Int64:
+			if newVal.Int() < 0 {
+				return fmt.Errorf("setting field %s (%s) to %d would overflow", key, field.Kind().String(), newVal.Int())
+			}
 			newUint = uint64(newVal.Int())
 		case reflect.Uint, reflect.Uint8, reflect.Uint16, reflect.Uint32, reflect.Uint64:
 			newUint = newVal.Uint()
